@@ -51,8 +51,10 @@ Advance(ti, to) == /\ i' = ti.e /\ o' = to.e /\ n' = n + 1 /\ prevO' = lineO
                    /\ lineO' = lineO + NlIn(Out, o, to.e)
 Step ==
   /\ verdict = "run"
-  /\ IF T.focus = "C19" THEN
-        (IF ~HeaderOK THEN Stop("header") ELSE IF ~TitlesOK THEN Stop("title") ELSE Stop("ok"))
+  /\ IF T.focus = "C19" /\ i = 1 /\ o = 1 /\ ~HeaderOK THEN Stop("header")
+     ELSE IF T.focus = "C19" /\ i = 1 /\ o = 1 /\ ~TitlesOK THEN Stop("title")
+     \* (C19 then goes on through the token streams: code that became a comment, or a comment that became code, shows as a
+     \*  kind / end mismatch)
      ELSE LET ti == IF i <= Len(Src) THEN NextTok(Src, i) ELSE Tok("eof", i)
               to == IF o <= Len(Out) THEN NextTok(Out, o) ELSE Tok("eof", o) IN
      IF ti.k \in Bad THEN Stop("ood")
